@@ -71,3 +71,30 @@ int fixtureLastSeenGood(const std::vector<FixtureItem> &items)
     }
     return emitted;
 }
+
+// A fallback after a search loop is guarded by the RESULT being empty, not by the collection being empty (engines.fallback_guards).
+#include <map>
+#include <string>
+std::string fixtureFallbackBad(const std::map<int, std::string> &ids, const std::string &direct)
+{
+    std::string id;
+    for (const auto &entry : ids) {
+        id = entry.second; // may well be ""
+    }
+    if (ids.empty()) {
+        id = direct;
+    }
+    return id;
+}
+
+std::string fixtureFallbackGood(const std::map<int, std::string> &ids, const std::string &direct)
+{
+    std::string id;
+    for (const auto &entry : ids) {
+        id = entry.second;
+    }
+    if (id.empty()) {
+        id = direct;
+    }
+    return id;
+}
